@@ -149,6 +149,65 @@ def multiroot_case(rng):
                 kind="multiroot:" + style, abs_args=rng.random() < 0.3)
 
 
+def contested_case(rng):
+    """One module path (p, p.q or p.q.m …) present under several roots with different `__init__` patterns and leaf
+    forms; everything else is unique.  Duplicate modules only arise when two roots crawl to the same name, so most
+    cases test which root `find_module` prefers (verify_module, highest_init_level, root order, namespace dirs)."""
+    roots = rng.sample(["r", "s", "t"], rng.randint(2, 3))
+    chain = ["p", "q", "k"][:rng.randint(0, 3)]
+    ents = set()
+    for r in roots:
+        d = r
+        alive = True
+        for c in chain:
+            d = d + "/" + c
+            if rng.random() < 0.12:
+                alive = False
+                break
+            if rng.random() < 0.55:
+                ents.add((d + "/__init__" + rng.choice([".py", ".py", ".pyi"]), "f"))
+        if not alive:
+            ents.add((r + "/other_" + r + ".py", "f"))
+            continue
+        leaf = rng.choice(["m.py", "m.pyi", "m/__init__.py", "m/__init__.pyi", "m/n.py", "both", "mod+bare", "none"])
+        if leaf == "both":
+            ents.add((d + "/m.py", "f")); ents.add((d + "/m.pyi", "f"))
+        elif leaf == "mod+bare":
+            ents.add((d + "/m.py", "f")); ents.add((d + "/m/n.py", "f"))
+        elif leaf == "none":
+            ents.add((d, "d"))
+        else:
+            ents.add((d + "/" + leaf, "f"))
+        if rng.random() < 0.3:
+            ents.add((r + "/uniq_" + r + ".py", "f"))
+    ents = _consistent(sorted(ents))
+    files = [p for p, k in ents if k == "f"]
+    if not files:
+        ents.append(("r/x.py", "f")); files = ["r/x.py"]
+    mp = rng.sample(roots, rng.randint(0, len(roots)))
+    epb = rng.random() < 0.35
+    ns = epb or rng.random() < 0.7
+    cwd = rng.choice(["", "o"] + roots)
+    if cwd and not any(p == cwd or p.startswith(cwd + "/") for p, _ in ents):
+        ents.append((cwd, "d"))
+    style = rng.choice(["files", "files-rev", "files-shuffled", "roots", "one-root"])
+    if style == "files":
+        args = sorted(files)
+    elif style == "files-rev":
+        args = sorted(files, reverse=True)
+    elif style == "files-shuffled":
+        args = list(files); rng.shuffle(args)
+    elif style == "roots":
+        args = [r for r in roots if any(p.startswith(r + "/") for p in files)]
+        rng.shuffle(args)
+    else:
+        r = rng.choice(roots)
+        args = [f for f in files if f.startswith(r + "/")] or sorted(files)
+    pkg = rng.choice([None, None, "p", ".".join(chain) if chain else "m", ".".join(chain + ["m"])])
+    return Case(entries=ents, args=args, cwd=cwd, mypy_path=mp, ns=ns, epb=epb, via_env=rng.random() < 0.25, pkg=pkg,
+                kind="contested:" + style, abs_args=rng.random() < 0.3)
+
+
 def _consistent(ents):
     """Drop entries that would need a path to be both a file and a directory."""
     files = {p for p, k in ents if k == "f"}
